@@ -9,7 +9,7 @@ out = sys.argv[1]; patches = sys.argv[2:]
 matrix = json.load(open(out)) if os.path.exists(out) else {}
 for patch in patches:
     name = os.path.basename(os.path.dirname(patch)) if os.path.basename(patch) == "patch.diff" else os.path.basename(patch)[:-5]
-    if name in matrix: continue
+    if name in matrix and not os.environ.get("MX_CHECKS"): continue
     base = tempfile.mkdtemp(prefix="pmc-mx-")
     repo = os.path.join(base, "repo"); root = os.path.join(base, "verif")
     try:
@@ -24,7 +24,10 @@ for patch in patches:
         if b.returncode != 0: matrix[name] = {"error": "harness does not build: " + b.stderr[-300:]}; continue
         env = dict(ENV, PMC_ROOT=root, PMC_REPO=repo)
         row = {}
+        only = os.environ.get("MX_CHECKS", "").split()
         for cid in sh("./bin/pmc list", root).stdout.split():
+            if only and cid not in only and not (only == ["target"] and cid == name[:3]):
+                continue
             r = sh(f"nice -n 5 ./bin/pmc check {cid} quick", root, env)
             row[cid] = {"exit": r.returncode, "violations": len(re.findall(r"^VIOLATION", r.stdout, re.M)), "sigs": sorted(set(re.findall(r"sig=(\S+)", r.stdout)))[:4]}
         matrix[name] = row
